@@ -232,6 +232,8 @@ func checkC04(c *Ctx) {
 	// the names and tags delivered are the derivation's with the sanitizer's own rule applied to each part
 	// (name rule for names, key rule for keys, value rule for values): shared with C06 O1
 	c.shared(checkC06, map[string]string{"O1 sanitize-before-sink": "O6 own-sanitizer-rule"})
+	// the scope a derivation is handed is the one registered under that derivation's canonical key
+	c.checkSubscopeSource("O2 scope-by-canonical-key")
 	c.checkStringMapMutations("O4 no-mutation")
 	for _, f := range []string{"prefix", "separator", "tags"} {
 		c.checkConstructorOnly("O4 immutable", "", "scope", f)
